@@ -22,8 +22,10 @@
    RuleDBBase.add files rule r in state d;  reproduces T d sid k : strategy sid applied
    to the class labelled (fst k) gives a rule that is filed under k again. *)
 From Coq Require Import ZArith List Bool Lia.
-From CSS Require Import Base.PyList ClassDB.Model ClassDB.Proofs Searcher.Model Searcher.Inv Searcher.Proofs
-  RuleDB.Model RuleDB.StoreProofs RuleDB.CdbFacts RuleDB.GetProofs RuleDB.AddProofs RuleDB.Bridge.
+From CSS Require Import Base.PyList ClassDB.Model ClassDB.Proofs Searcher.Model Searcher.Inv Searcher.Contracts
+  Searcher.ProofsCore Searcher.Proofs
+  RuleDB.Model RuleDB.StoreProofs RuleDB.CdbFacts RuleDB.GetProofs RuleDB.AddProofs RuleDB.Bridge
+  RuleDB.AddHist RuleDB.SearchHist.
 Import ListNotations.
 Open Scope Z_scope.
 
@@ -150,8 +152,9 @@ Theorem C14_lookup_side_effects : forall (T : table) pack only_equiv s d k d' g,
   WFd d' /\ extends d d' /\ (forall c l, lbl d c = Some l -> lbl d' c = Some l /\ empv T d' c = empv T d c).
 Proof. intros; eapply recompute_side_effects; eauto. Qed.
 
-(* 3d. RuleDB: add called as the searcher calls it (start = label of the rule's parent, ends = labels
-   of its children: C04_recorded_from_table) succeeds, files the rule under the key its own strategy
+(* 3d. RuleDB: add called as the searcher calls it (add_pre: start = label of the rule's parent, ends = labels
+   of ALL its children, in the class database at call time - for search-produced calls: C04_adds_made_under_add_pre)
+   succeeds, files the rule under the key its own strategy
    reproduces, and rule_to_strategy[key] / eqv_rule_to_strategy[key] is that strategy *)
 Theorem C14_dict_add_reproduces : forall (T : table) a start ends r cs,
   add_pre T (b_cdb dstore a) start ends r cs -> kind_ok T r ->
@@ -213,35 +216,79 @@ Theorem C14_truthful_caches_keep_answers : forall (T : table) d d',
   EmptyOK (fun k : Z => k) (oracle T) d -> EmptyOK (fun k : Z => k) (oracle T) d' -> pres T d d'.
 Proof. intros; eapply pres_of_truthful; eauto. Qed.
 
-(* ... which is the case for any two states of a search (searcher model of C04: any table honouring
-   the two strategy contracts, any packets, any is_verified answers, any fuel, every database mode) *)
+(* ... which is the case for any two packet-boundary states of a search (searcher model of C04: any table
+   honouring the two strategy contracts of Searcher/Contracts.v - restated: the former pair was contradictory
+   whenever a symmetry has an entry on an empty class, see C04_old_contracts_exclude_each_other -, any packets of
+   strategies of `pack`, any is_verified answers, any fuel, every database mode).  States INSIDE a packet:
+   C14_search_stored_rules_handed_back below. *)
 Section Search.
 Variable T : table.
 Variable mode : Z.
 Variables (F : nat) (do_level expand_verified : bool) (answers : list bool) (start : Z).
-Hypothesis pe_contract : forall sid c e, (* in-section *)
-  entry_of T sid c = Some e -> pe_of T sid = false -> forall k, In k (e_children e) -> oracle T k = false.
-Hypothesis sym_contract : forall sid c r c0 rest, (* in-section *)
-  In sid (t_sym T) -> In r (rules_from_strategy T sid c) -> rule_children T r = Some (c0 :: rest) ->
-  oracle T c0 = oracle T c.
+Variable pack : list Z.
+Hypothesis Hpe : pe_contract T pack. (* in-section *)
+Hypothesis Hsym : sym_contract T. (* in-section *)
 Notation final ps := (run_search T mode F do_level expand_verified answers start ps).
 
-Theorem C14_search_states_keep_answers : forall ps more,
+Theorem C14_search_states_keep_answers : forall ps more, packets_in pack (ps ++ more) ->
   pres T (cdb (final ps)) (cdb (final (ps ++ more))).
 Proof.
-  intros ps more.
-  destruct (run_search_inv T mode True (fun _ => pe_contract) (fun _ => sym_contract) F do_level expand_verified answers start ps)
+  intros ps more Hps.
+  assert (packets_in pack ps) as Hp1 by (apply (proj1 (Forall_app _ ps more) Hps)).
+  destruct (run_search_inv0 T mode True pack (fun _ => Hpe) (fun _ => Hsym) F do_level expand_verified answers start ps (fun _ => Hp1))
     as (W & E & _).
-  destruct (run_search_app T mode True (fun _ => pe_contract) (fun _ => sym_contract) F do_level expand_verified answers start ps more)
+  destruct (run_search_app0 T mode True pack (fun _ => Hpe) (fun _ => Hsym) F do_level expand_verified answers start ps more (fun _ => Hps))
     as ((W' & E' & _) & X & _).
   apply pres_of_truthful; auto.
 Qed.
 End Search.
 
+(* COMPOSITION C04 -> C14 (RuleDB/SearchHist.v, C04_search_gives_add_hist): the hypotheses add_pre / pres of
+   C14_stored_rule_is_handed_back hold for the histories SEARCHES produce.  For every run of the searcher model on a
+   pruning database (any table honouring the contracts, start class, packets of pack strategies, answers, fuel -
+   also a run that died), for every ruledb.add(start, ends, rule (sid, parent)) event in its trace - also one made
+   in the middle of the last packet - : the call was made under add_pre in the class database d of that moment,
+   and in the state the run is in NOW (class database cdb s) RuleDBForgetStrategy hands back, for the key k under
+   which that call filed the rule, a strategy that reproduces k - from ANY store s2 still holding k (the key may
+   have been deleted as a superseded one-way key) - provided a strategy q of the memory-saving database's pack
+   `fpack` (or the empty strategy) produces the rule on the rule's OWN parent class (the open finding: a factory
+   rule with a foreign parent is not covered, C14_every_stored_rule_handed_back_refuted).
+   Not discharged: sym_unary (symmetry rules are unary: their record carries one label) and twoway_faithful for
+   the table's rule objects (no factory item names a verification strategy: SearchHist.items_plain_faithful). *)
+Theorem C14_search_stored_rules_handed_back : forall (T : table) (pack fpack : list Z),
+  sym_unary T -> (forall sid0 c0 r, In r (rules_from_strategy T sid0 c0) -> twoway_faithful T r) ->
+  pe_contract T pack -> sym_contract T ->
+  forall F dl ev ans start ps, packets_in pack ps ->
+  let s := run_search T 0 F dl ev ans start ps in
+  forall start_label ends sid parent, In (EvAdd start_label ends sid parent) (trace s) ->
+  exists d r cs, r_sid r = sid /\ r_parent r = parent /\ add_pre T d start_label ends r cs /\
+    let k := stored_key T d start_label ends r cs in
+    let oe := in_eqv (snd k) (r_two_way T r) in
+    forall q, In q (-1 :: fpack) -> In r (cands T q parent) ->
+    forall s2, r_mem k s2 = true ->
+    exists d3 sid' p, rec_getitem T fpack oe s2 (cdb s) k = (d3, GOk sid' p) /\ reproduces T d3 sid' k = true.
+Proof.
+  intros T pack fpack Hu Hf Hp Hs F dl ev ans start ps Hps s sl ends sid parent Hin.
+  destruct (search_gives_add_hist T 0 pack Hu Hf Hp Hs F dl ev ans start ps Hps eq_refl)
+    as (a & l & A & B & _ & _ & D & _).
+  assert (In (EvAdd sl ends sid parent) (adds_of (trace s))) as Hin' by (apply adds_of_In; split; [exact Hin|eauto]).
+  fold s in D. rewrite D in Hin'. apply in_map_iff in Hin' as (x & Hx & Hxl).
+  pose proof (add_hist_l_steps T l a A) as Hall. rewrite Forall_forall in Hall.
+  destruct (Hall x Hxl) as (P1 & P2 & P3). unfold add_ev in Hx. injection Hx as <- <- <- <-.
+  exists (h_d x), (h_r x), (h_cs x). split; [reflexivity|]. split; [reflexivity|]. split; [exact P1|].
+  intros k oe q Hq Hc s2 Hm.
+  destruct (rec_add_spec T (rec_init (h_d x)) (h_start x) (h_ends x) (h_r x) (h_cs x) fpack q P1 Hq Hc) as (_ & _ & Hgo).
+  apply (Hgo (cdb s) s2); [|exact Hm].
+  pose proof (run_sim T [HAdd (h_start x) (h_ends x) (h_r x)] _ _ (simdb_init (h_d x))) as (Hc' & _).
+  cbn [dict_run rec_run gen_run fold_left gen_step] in Hc'. fold (dict_add T) in Hc'. fold (rec_add T) in Hc'.
+  rewrite <- Hc'. fold s in B. rewrite <- B. exact P3.
+Qed.
+
 (* The searcher model of C04 uses the DictStore database: one ruledb.add of Searcher/Model.v (base_add, key
    lists rstore / estore) and dict_add do the same to the class database and to the two key sets; when the class
-   database raises, both leave the stores alone.  Hence the histories a search produces are histories of theorem 1,
-   and C04_recorded_from_table provides add_pre for them. *)
+   database raises, both leave the stores alone.  This is the ONE-STEP lemma; it is iterated over the whole run of
+   the searcher model in RuleDB/SearchHist.v (C04_search_gives_add_hist: every run produces an add_hist history, each
+   ruledb.add made under add_pre at call time), which C14_search_stored_rules_handed_back above uses. *)
 Theorem C14_searcher_model_uses_dict_store : forall (T : table) s a start ends r cs,
   running s = true -> rule_children T r = Some cs ->
   b_cdb dstore a = cdb s -> d_keys (b_r dstore a) = rstore s -> d_keys (b_e dstore a) = estore s ->
@@ -603,32 +650,24 @@ Definition se_table : table :=
         mkS 0 false true false true [(1, mkE [3] true true [1])] [];
         mkS 3 false false false false [(0, mkE [4] true true [0])] [] ]
       [0] [4].
-Lemma se_pe_contract : forall sid c e,
-  entry_of se_table sid c = Some e -> pe_of se_table sid = false ->
-  forall k, In k (e_children e) -> oracle se_table k = false.
-Proof.
-  intros sid c e H Hp k Hk. unfold entry_of, pe_of, flag in *.
-  destruct (strat_of se_table sid) as [x|] eqn:Es; [|discriminate].
-  unfold strat_of in Es. destruct (sid <? 0); [discriminate|].
-  destruct (Z.to_nat sid) as [|[|[|[|[|n]]]]]; simpl in Es; try (destruct n; discriminate);
-    injection Es as <-; simpl in *; try discriminate;
-    repeat match type of H with context [if ?b then _ else _] => destruct b end; try discriminate;
-    injection H as <-; simpl in Hk; intuition; subst; reflexivity.
-Qed.
-Lemma se_sym_contract : forall sid c r c0 rest,
-  In sid (t_sym se_table) -> In r (rules_from_strategy se_table sid c) ->
-  rule_children se_table r = Some (c0 :: rest) -> oracle se_table c0 = oracle se_table c.
-Proof.
-  intros sid c r c0 rest [<-|[]]. unfold rules_from_strategy, applies, entry_of. simpl.
-  destruct c; simpl; try (intros []; fail).
-  intros [<-|[]]. vm_compute. intros [= <- <-]. reflexivity.
-Qed.
+Definition se_pack : list Z := [1; 2].
+Lemma se_pe_contract : pe_contract se_table se_pack.
+Proof. apply (proj1 (proj1 (contractsb_spec se_table se_pack) eq_refl)). Qed.
+Lemma se_sym_contract : sym_contract se_table.
+Proof. apply (proj2 (proj1 (contractsb_spec se_table se_pack) eq_refl)). Qed.
+Lemma se_sym_unary : sym_unary se_table.
+Proof. apply (proj1 (sym_unaryb_spec se_table)). reflexivity. Qed.
+Lemma se_faithful : forall sid0 c0 r, In r (rules_from_strategy se_table sid0 c0) -> twoway_faithful se_table r.
+Proof. apply items_plain_faithful. reflexivity. Qed.
+Lemma se_packets : packets_in se_pack ([mkP 0 [1] false] ++ [mkP 0 [2] false]).
+Proof. apply (proj1 (packets_inb_spec se_pack _)). reflexivity. Qed.
 Definition se_ans : list bool := [false; false; false; false; false; false; false; false].
 Example C14_search_states_keep_answers_nonvacuous :
   pres se_table (cdb (run_search se_table 0 20 false true se_ans 0 [mkP 0 [1] false]))
                 (cdb (run_search se_table 0 20 false true se_ans 0 ([mkP 0 [1] false] ++ [mkP 0 [2] false]))).
 Proof.
-  apply (C14_search_states_keep_answers se_table 0 20 false true se_ans 0 se_pe_contract se_sym_contract).
+  apply (C14_search_states_keep_answers se_table 0 20 false true se_ans 0 se_pack se_pe_contract se_sym_contract).
+  exact se_packets.
 Qed.
 Example C14_search_states_keep_answers_states :
   classes (cdb (run_search se_table 0 20 false true se_ans 0 [mkP 0 [1] false])) = [0; 4; 1; 2] /\
@@ -636,6 +675,23 @@ Example C14_search_states_keep_answers_states :
     [Some false; Some false; Some false; Some true] /\
   classes (cdb (run_search se_table 0 20 false true se_ans 0 [mkP 0 [1] false; mkP 0 [2] false])) = [0; 4; 1; 2; 3].
 Proof. repeat split; vm_compute; reflexivity. Qed.
+
+(* covers C14_search_stored_rules_handed_back: the add  S1(0) -> (1, 2)  of the first packet (class 2 empty, strategy 1
+   possibly_empty: filed under (0, (2,))), looked up in the state after BOTH packets with the pack [1; 2; 3] of the
+   memory-saving database: handed back and reproducing *)
+Example C14_search_stored_rules_handed_back_nonvacuous :
+  let s := run_search se_table 0 20 false true se_ans 0 ([mkP 0 [1] false] ++ [mkP 0 [2] false]) in
+  exists d r cs, r_sid r = 1 /\ r_parent r = 0 /\ add_pre se_table d 0 [2; 3] r cs /\
+    let k := stored_key se_table d 0 [2; 3] r cs in
+    let oe := in_eqv (snd k) (r_two_way se_table r) in
+    forall q, In q (-1 :: [1; 2; 3]) -> In r (cands se_table q 0) ->
+    forall s2, r_mem k s2 = true ->
+    exists d3 sid' p, rec_getitem se_table [1; 2; 3] oe s2 (cdb s) k = (d3, GOk sid' p) /\ reproduces se_table d3 sid' k = true.
+Proof.
+  apply (C14_search_stored_rules_handed_back se_table se_pack [1; 2; 3] se_sym_unary se_faithful se_pe_contract se_sym_contract
+           20%nat false true se_ans 0 _ se_packets 0 [2; 3] 1 0).
+  vm_compute; repeat (first [left; reflexivity | right]).
+Qed.
 
 Print Assumptions C14_same_keys_same_answers.
 Print Assumptions C14_has_specification_marks_same_labels.
@@ -650,5 +706,6 @@ Print Assumptions C14_repair_reproduces.
 Print Assumptions C14_repair_hands_back.
 Print Assumptions C14_truthful_caches_keep_answers.
 Print Assumptions C14_search_states_keep_answers.
+Print Assumptions C14_search_stored_rules_handed_back.
 Print Assumptions C14_searcher_model_uses_dict_store.
 Print Assumptions C14_every_stored_rule_handed_back_refuted.
